@@ -186,6 +186,10 @@ def gen_deck(rng):
                                          ['8016', '1', '1001', '2'],
                                          ['26000', '-0.7', '6012', '-0.3'],
                                          ['92235.70c', '0.05', '92238', '0.95']])
+        if rng.random() < 0.03:
+            # Fortran spellings (open finding fortran_spelled_fraction_copied)
+            dk['materials'][m] = ['1001', '-1.5d-1', '8016', '-8.5-1']
+            tags.add('fortran-spelled-fractions')
 
     def material(cell):
         if rng.random() < 0.2:
